@@ -47,7 +47,9 @@ class P(Prop):
                 self.fail("corr", "logic:" + fn, f"{fn}{args}: {d}", {"fn": fn, **args})
         # helpers
         rng = self.rng
-        for num in list(range(0, 70)) + [rng.randint(1, 2 ** 40) for _ in range(20)]:
+        edges = [2 ** k + d for k in range(1, 130, 3) for d in (-1, 0, 1)]     # exact integer arithmetic at every size
+        for num in list(range(0, 70)) + [rng.randint(1, 2 ** 40) for _ in range(20)] + edges + \
+                [rng.randint(2 ** 40, 2 ** 200) for _ in range(10)]:
             o, r = call(cg.utils.clog2, num)
             m = drv.ask({"op": "clog2", "n": num})
             self.corr_cases += 1
@@ -159,7 +161,8 @@ class P(Prop):
                 self.check_mux(w)
             self.check_popcount(w)
         # helper specifications
-        for num in range(1, 3000):
+        big = [2 ** k + d for k in range(1, 200) for d in (-1, 0, 1) if 2 ** k + d >= 1]
+        for num in list(range(1, 3000)) + big:
             k = cg.utils.clog2(num)
             self.search_cases += 1
             if not (2 ** k >= num and (k == 0 or 2 ** (k - 1) < num)):
